@@ -9,7 +9,11 @@ function of the case, so replays reproduce it):
   mode 2  only the leading half of the parameters is passed positionally
 
 Only the check's own calls are rewritten; calls lentil makes internally are untouched.  On a tree whose functions
-still have the documented signatures all three modes are the same call."""
+still have the documented signatures all three modes are the same call.
+
+Independently of the mode, one case in four passes every Python ``float`` argument of a wrapped function as a 0-d
+float64 array (what np.load, HDF5 readers or ``squeeze()`` hand back for a scalar: the same number, array_like) and
+looks at those objects again after the call: a function that changed one of them has modified a caller's argument."""
 import ast
 import functools
 
@@ -60,11 +64,30 @@ SIGNATURES = {
 }
 
 _MODE = 0
+_SCALARS_0D = False
 
 
 def set_mode(m):
-    global _MODE
+    global _MODE, _SCALARS_0D
     _MODE = int(m) % 3
+    _SCALARS_0D = (int(m) // 3) % 4 == 0
+
+
+def scalars_0d():
+    return _SCALARS_0D
+
+
+def _wrap_floats(args, kwargs):
+    import numpy as np
+    held = []
+
+    def w(v):
+        if type(v) is float:
+            a = np.array(v)
+            held.append((a, v))
+            return a
+        return v
+    return tuple(w(v) for v in args), {k: w(v) for k, v in kwargs.items()}, held
 
 
 def get_mode():
@@ -106,7 +129,16 @@ class _Proxy:
         @functools.wraps(real)
         def call(*args, **kwargs):
             a, k = positional(sig, args, kwargs, _MODE)
-            return real(*a, **k)
+            if not _SCALARS_0D:
+                return real(*a, **k)
+            a, k, held = _wrap_floats(a, k)
+            out = real(*a, **k)
+            for arr, v in held:
+                if arr.shape != () or not (arr == v or (v != v and arr != arr)):
+                    from vlib.runner import Violation
+                    raise Violation("callform.scalar_parameter_mutated",
+                                    f"{self._prefix + name}(...) changed a scalar argument that was passed as a 0-d array: {v!r} -> {arr!r}")
+            return out
         return call
 
     def __setattr__(self, name, value):
